@@ -12,9 +12,9 @@ EXTENDS XLParser, Json, IOUtils, CSV
 CONSTANTS H, ClearOnEnd, Export
 
 Kinds == {"ok", "okcells", "syntax", "lexerr", "errlit", "divzero", "unknownvar", "unknownfn",
-          "hostexc", "listenerexc", "xlraise", "trapped", "empty"}
+          "hostexc", "listenerexc", "cellexc", "rangeexc", "fnlistenerexc", "xlraise", "trapped", "empty"}
 (* kinds during which an error singleton is raised (and caught somewhere)  *)
-Raises == Kinds \ {"ok", "okcells", "empty", "hostexc", "listenerexc"}
+Raises == Kinds \ {"ok", "okcells", "empty", "hostexc", "listenerexc", "cellexc", "rangeexc", "fnlistenerexc"}
 
 VARIABLES hist, tb
 vars == <<st, hist, tb>>
